@@ -10,6 +10,7 @@ STD_CELLS = [
     ("nonuniform-analytic", "G2n", {"analytic_priors": True}),
     ("nonuniform-rejection", "G2n", {}),
     ("nonuniform-rejection-box-draws", "G2r", {}),
+    ("narrow-prior-rejection-box-draws", "G2rn", {}),
     ("constrained-prior", "G2c", {}),
     ("constrained-prior-leaky-uninformed", "G2c", {"uninformed_proposal": "leaky", "maximum_uninformed": 150}),
     ("flat-direction-prime-prior", "G2f", {"reparameterisations": {"x0": {"reparameterisation": "rescaletobounds", "rescale_bounds": [0.0, 1.0], "prior": "uniform"},
